@@ -37,6 +37,21 @@ func (dec *Decoder) stringToComplex128(s string) complex128 {
 	return c
 }
 
+// readComplexList reads the two-element list [real, imaginary] that a complex
+// number with a non-zero imaginary part is written as.
+func (dec *Decoder) readComplexList(t reflect.Type, tag byte, p interface{}) (c complex128) {
+	if count := dec.ReadInt(); count != 2 {
+		dec.decodeError(t, tag)
+		return
+	}
+	dec.AddReference(p)
+	var re, im float64
+	dec.decodeFloat64(float64Type, dec.NextByte(), &re)
+	dec.decodeFloat64(float64Type, dec.NextByte(), &im)
+	dec.Skip()
+	return complex(re, im)
+}
+
 func (dec *Decoder) decodeComplex64(t reflect.Type, tag byte, p *complex64) {
 	if i := intDigits[tag]; i != invalidDigit {
 		*p = complex(float32(i), 0)
@@ -63,6 +78,8 @@ func (dec *Decoder) decodeComplex64(t reflect.Type, tag byte, p *complex64) {
 		} else {
 			*p = dec.stringToComplex64(dec.ReadString())
 		}
+	case TagList:
+		*p = complex64(dec.readComplexList(t, tag, p))
 	default:
 		dec.defaultDecode(t, p, tag)
 	}
@@ -104,6 +121,8 @@ func (dec *Decoder) decodeComplex128(t reflect.Type, tag byte, p *complex128) {
 		} else {
 			*p = dec.stringToComplex128(dec.ReadString())
 		}
+	case TagList:
+		*p = complex128(dec.readComplexList(t, tag, p))
 	default:
 		dec.defaultDecode(t, p, tag)
 	}
